@@ -58,6 +58,7 @@ def normalize_node(n):
     n.setdefault("pmap", [[p, p] for p in n["inputs"]])
     n.setdefault("outputs", [])
     n.setdefault("ndata", len(n["outputs"]) if n["kind"] in ("func", "interrupt", "graph") else 0)
+    n.setdefault("olabels", list(n["outputs"]))   # labels used inside returned values: survive output renames
     n.setdefault("wait_for", [])
     n.setdefault("defaults", [])
     n.setdefault("targets", [])
